@@ -6,6 +6,16 @@ mod c02;
 mod c03;
 mod c09;
 mod c10;
+#[cfg(feature = "std")]
+mod c11;
+#[cfg(feature = "std")]
+mod c14;
+#[cfg(feature = "full")]
+mod c15;
+#[cfg(feature = "full")]
+mod c16;
+#[cfg(feature = "full")]
+mod c17;
 mod cscript;
 mod hist;
 mod kern;
@@ -36,6 +46,16 @@ fn main() {
         "kern" => (kern::run(&args), kern::RULE),
         "probes" => (kern::probes(&args), kern::RULE),
         "c10" => (c10::run(&args), c10::RULE),
+        #[cfg(feature = "std")]
+        "c11" => (c11::run(&args), c11::RULE),
+        #[cfg(feature = "std")]
+        "c14" => (c14::run(&args), c14::RULE),
+        #[cfg(feature = "full")]
+        "c15" => (c15::run(&args), c15::RULE),
+        #[cfg(feature = "full")]
+        "c16" => (c16::run(&args), c16::RULE),
+        #[cfg(feature = "full")]
+        "c17" => (c17::run(&args), c17::RULE),
         "gen-cscript" => {
             cscript::run(&args);
             return;
